@@ -212,6 +212,18 @@ CLAIMED.update({
              "the final comparison). Peer-up/peer-down pairing in bmp.rs is not covered."),
 })
 
+CLAIMED.update({
+    "C20": dict(
+        category="exploration", design_ref="DESIGN.md 5 (C20)",
+        technique="TLA+ Rib.tla (decision process, ECMP set, next-hop validity) extended with the FIB / registration projection; "
+                  "random model behaviours replayed through the real TableManager with a readable kernel handle (cfg-guarded "
+                  "constructor); the request stream is drained and folded after every operation and compared with the model",
+        text="500 (3000) random behaviours of up to 30 (40) operations over 2 prefixes, 3 peers, tie/win/lose attribute classes, shared "
+             "next hops, import rejection, stale / LLGR marking and purges and reachability flips; per step the folded FIB and the "
+             "registration counts are compared.  IPv4 unicast only; VRF installation and soft-reset next-hop changes not covered.",
+        note="Trusted: Rib.tla's decision process (validated against the real table by C02/C06) and the fold of the request stream."),
+})
+
 NOT_YET = {}
 
 HOOK_COMMITS = []
